@@ -52,6 +52,15 @@ def run(report: Report, tier, seed):
                                   contract="each accessed component equals the reference encoding of that component; out-of-range array indices make the program fail",
                                   bound=f"{len(jobs)} type shapes x every element position (constant and computed index) x out-of-range indices x versions 5..10 x both storage back-ends",
                                   cases=ran, distinct_nontrivial=len({j[0] for j in jobs}), failures=len(bad) + len(known)))
+    nj = A.nt_jobs(tier)
+    nr = A.pool_map(A.nt_case, nj)
+    nbad = [r for r in nr if r["problems"]]
+    report.bounded.append(Bounded(function="named-tuple field access by name, several named-tuple types alive in one program",
+                                  contract="each field read equals the reference encoding of that component of the value of ITS type",
+                                  bound=f"{len(A.NT_FAMILIES)} families of named-tuple types that reuse field names at different positions / with different types x {len(A.NT_ORDERS)} instantiation / read orders x versions x main routine / subroutine",
+                                  cases=sum(r["ran"] for r in nr), distinct_nontrivial=len(nj), failures=len(nbad)))
+    for b in nbad[:2]:
+        report.violation(Violation(key=f"namedtuple:{b['job'][0]}:{b['job'][1]}", what=b["problems"][0][:400], replay={"input": {"namedtuple": b["job"]}, "teal": b.get("teal")}, confirmed_native=True))
     report.extra["explanation"] = "P: _index_tuple offset arithmetic (pyvc); B: decode/element access against algosdk on generated shapes"
     srch = lambda fn, obs: (bad[0] if bad else None) and {"input": {k: bad[0][k] for k in ("shape", "seed", "version", "in_sub")}, "problems": bad[0]["problems"][:2]}
     report.settle_undecided(srch)
@@ -72,6 +81,10 @@ def replay(data):
     if not inp:
         print("no concrete input;", [x["id"] for x in r.get("refuted", [])])
         return 1
+    if inp.get("namedtuple"):
+        out = A.nt_case(tuple(inp["namedtuple"]))
+        print(out["problems"][:2])
+        return 1 if out["problems"] else 0
     out = A.decode_case((inp["shape"], inp["seed"], inp["version"], inp["in_sub"]))
     print(out["problems"][:3])
     return 1 if out["problems"] else 0
